@@ -1985,7 +1985,7 @@ class Interp:
                 return isinstance(obj, set)
         if isinstance(cls, ExcClass):
             return isinstance(obj, ExcValue) and exc_isinstance(obj, cls.name)
-        if isinstance(cls, (LocalObj, ObjRef, PropertyValue, FuncValue, int, float, str, list, dict)) and not isinstance(cls, bool):
+        if isinstance(cls, (LocalObj, ObjRef, PropertyValue, FuncValue, Arr, T.Term, int, float, str, list, dict)) and not isinstance(cls, bool):
             # isinstance(x, <an instance>): python raises TypeError
             raise PyRaise(ExcValue("TypeError", ("isinstance() arg 2 must be a type, a tuple of types, or a union",), ("Exception",)))
         raise Unsupported(f"isinstance against {cls!r}")
